@@ -11,5 +11,10 @@ CHECKS = {
   note="Trusted: Coq kernel for the theorems; for the exploration the harness, the process isolation and the generator. Memory, stack and thread behaviour are the runtime's and are not modelled. Commands that block, leave the process, need the network or write/delete files are excluded (list in evidence).",
   technique="Coq totality theorems for modelled commands + process-isolated differential exploration (testing) for the unmodelled library; known-finding witnesses",
   ref="7/C07"),
+ "C17": dict(
+  text="Machine-checked proofs (Coq) of the base64, UTF-8 and hexadecimal round trips for ALL byte strings, ALL texts of Unicode scalar values and ALL u64 values, on arithmetic models of the base64 crate's STANDARD engine (strict decoder), of String::into_bytes / str::from_utf8 and of u64 parse / {:#x} / trim_start_matches + from_str_radix, including the composition text -> bytes -> base64 -> bytes -> text and the two hex commands. The models are tied to the real crates on every run by running the extracted model against the commands: encoders AND strict decoders on exhaustive small scopes (all byte strings of length <= 2, all 1/2-byte UTF-8 candidates, boundary bytes to length 3-4, every scalar value in thorough) and random / malformed input. PARTIAL: the JSON (serde_json + collection glue) and properties (java-properties + glue) round trips are NOT modelled; they are explored against the property's own oracle (normalised document, same keys/values) as testing. Known finding F18 (properties writer) is reported and exactly its class excluded.",
+  note="Trusted: Coq kernel, extraction, harness. The codec models are models of library functions (validated, not verified). JSON and properties parts are exploration only and say so in evidence (not_modelled). Float rendering is serde_json's.",
+  technique="Coq round-trip proofs on arithmetic codec models + extracted-model/implementation differential correspondence; oracle-based exploration for JSON/properties",
+  ref="7/C17, 14"),
 }
 NOT_YET = {}
